@@ -11,7 +11,7 @@ JAR = '/opt/veriftools/tla/tla2tools.jar:/opt/veriftools/tla/CommunityModules-de
 
 
 # constants every USim configuration needs; a config only lists what it uses
-DEFAULTS = dict(NQueues=0, NChans=0, CondSel='none', TickSel='none', NRes=0, MaxPools=0, ResInit=0, MaxLevel=3)
+DEFAULTS = dict(NQueues=0, NChans=0, CondSel='none', TickSel='none', NRes=0, MaxPools=0, ResInit=0, MaxLevel=3, NT=1, ResInitB=0, AmtMax=2)
 
 
 def tla_value(v):
